@@ -11,6 +11,8 @@ def about : Item → Option String
   | .runAction t => some t
   | .rpcResult t _ => some t
   | .postCheck => none
+  | .postStartExisting t => some t
+  | .rpcStartExisting t => some t
 
 /-- 0: on the way to start the task; 1: on the way to its result; 2: completion check -/
 def kind : Item → Nat
@@ -20,6 +22,8 @@ def kind : Item → Nat
   | .runAction _ => 1
   | .rpcResult _ _ => 1
   | .postCheck => 2
+  | .postStartExisting _ => 3
+  | .rpcStartExisting _ => 3
 
 /-- what a row in state `s` waits for -/
 def need : St → Option Nat
@@ -440,6 +444,8 @@ theorem live_complete (sp : Spec) (w : World) (t : String) (ok : Bool) (s : St) 
       apply satisfiedName_view
       apply updRow_view_congr
       intro x; exact ⟨rfl, rfl⟩
+    have hnp : isPaused w.wf = false := by rw [hrun]; decide
+    simp only [hnp, Bool.false_eq_true, if_false]
     show Static sp (dispatch (afterComplete w t ok s ns) ns) ∧ Pend (dispatch (afterComplete w t ok s ns) ns)
     have hd : dispatch (afterComplete w t ok s ns) ns = afterDispatch w t ok s ns := by
       unfold afterComplete afterDispatch
@@ -517,9 +523,155 @@ theorem live_init (sp : Spec) : Static sp init ∧ Pend init := by
     (fun h => by cases h), (fun h => by cases h), (fun h => absurd rfl h)⟩, ?_, (fun h => by cases h), fun _ => rfl⟩
   intro r hr; simp [init] at hr
 
-theorem live_step (sp : Spec) (w : World) (e : Event) (hs : Static sp w) (hp : Pend w) (ho : Once w.tasks) :
+/-- an event that is not an operator command -/
+def NoOp : Event → Prop
+  | .pause => False
+  | .resume => False
+  | .stop _ => False
+  | _ => True
+
+def isExisting : Item → Bool
+  | .postStartExisting _ => true
+  | .rpcStartExisting _ => true
+  | _ => false
+
+/-- no start request for an existing task is pending (they only come from resume) -/
+def NoExisting (w : World) : Prop := ∀ x ∈ w.pending, isExisting x = false
+
+theorem mem_removeFirst_sub (l : List Item) (it x : Item) (h : x ∈ removeFirst l it) : x ∈ l := by
+  induction l with
+  | nil => simp [removeFirst] at h
+  | cons a as ih =>
+    unfold removeFirst at h
+    split at h
+    · exact List.mem_cons.mpr (Or.inr h)
+    · rcases List.mem_cons.mp h with rfl | h
+      · simp
+      · exact List.mem_cons.mpr (Or.inr (ih h))
+
+theorem dispatch_pending (w : World) (ns : List String) :
+    ∀ x ∈ (dispatch w ns).pending, x ∈ w.pending ∨ isExisting x = false := by
+  intro x hx
+  unfold dispatch at hx
+  split at hx
+  · exact Or.inl hx
+  · rcases List.mem_append.mp hx with h | h
+    · exact Or.inl h
+    · rcases List.mem_map.mp h with ⟨n, _, rfl⟩; exact Or.inr rfl
+
+/-- without operator commands no such request ever appears -/
+theorem noExisting_step (sp : Spec) (w : World) (e : Event) (hop : NoOp e) (h : NoExisting w) :
+    NoExisting (step sp w e) := by
+  have keep : ∀ (p : List Item), (∀ x ∈ p, x ∈ w.pending ∨ isExisting x = false) → ∀ x ∈ p, isExisting x = false := by
+    intro p hp x hx
+    rcases hp x hx with h1 | h1
+    · exact h x h1
+    · exact h1
+  have rem : ∀ it x, x ∈ removeFirst w.pending it → x ∈ w.pending := fun it x hx => mem_removeFirst_sub _ it x hx
+  cases e with
+  | pause => cases hop
+  | resume => cases hop
+  | stop t => cases hop
+  | start =>
+    simp only [step]
+    split
+    · exact h
+    · split
+      · exact h
+      · intro x hx
+        rw [checkAndComplete_pending] at hx
+        rcases dispatch_pending _ _ x hx with h1 | h1
+        · exact h x h1
+        · exact h1
+  | execute t ok =>
+    simp only [step]
+    split
+    · exact h
+    · apply keep
+      intro x hx
+      rcases List.mem_append.mp hx with h1 | h1
+      · exact Or.inl (rem _ x h1)
+      · right; have : x = .rpcResult t ok := by simpa using h1
+        rw [this]; rfl
+  | deliver it =>
+    cases it with
+    | runAction t => exact h
+    | postStartExisting t =>
+      simp only [step]; split
+      · exact h
+      · rename_i hc
+        have hm : Item.postStartExisting t ∈ w.pending := List.contains_iff_mem.mp (by simpa using hc)
+        have := h _ hm; cases this
+    | rpcStartExisting t =>
+      simp only [step]; split
+      · exact h
+      · rename_i hc
+        have hm : Item.rpcStartExisting t ∈ w.pending := List.contains_iff_mem.mp (by simpa using hc)
+        have := h _ hm; cases this
+    | postStartTask t =>
+      simp only [step]; split
+      · exact h
+      · apply keep
+        intro x hx
+        rcases List.mem_append.mp hx with h1 | h1
+        · exact Or.inl (rem _ x h1)
+        · right; have : x = .rpcStartTask t := by simpa using h1
+          rw [this]; rfl
+    | postRunAction t =>
+      simp only [step]; split
+      · exact h
+      · apply keep
+        intro x hx
+        rcases List.mem_append.mp hx with h1 | h1
+        · exact Or.inl (rem _ x h1)
+        · right; have : x = .runAction t := by simpa using h1
+          rw [this]; rfl
+    | postCheck =>
+      simp only [step]; split
+      · exact h
+      · intro x hx
+        rw [checkAndComplete_pending] at hx
+        exact h x (rem _ x hx)
+    | rpcStartTask t =>
+      simp only [step]; split
+      · exact h
+      · split
+        · intro x hx; exact h x (rem _ x hx)
+        · split
+          · apply keep
+            intro x hx
+            rcases List.mem_append.mp hx with h1 | h1
+            · exact Or.inl (rem _ x h1)
+            · right; have : x = .postRunAction t := by simpa using h1
+              rw [this]; rfl
+          · intro x hx; exact h x (rem _ x hx)
+    | rpcResult t ok =>
+      simp only [step]; split
+      · exact h
+      · split
+        · intro x hx; exact h x (rem _ x hx)
+        · split
+          · intro x hx; exact h x (rem _ x hx)
+          · intro x hx
+            unfold completeTask at hx
+            split at hx
+            · exact h x (rem _ x hx)
+            · split at hx
+              · exact h x (rem _ x hx)
+              · rcases dispatch_pending _ _ x hx with h1 | h1
+                · rcases List.mem_append.mp h1 with h2 | h2
+                  · exact h x (rem _ x h2)
+                  · have : x = .postCheck := by simpa using h2
+                    rw [this]; rfl
+                · exact h1
+
+theorem live_step (sp : Spec) (w : World) (e : Event) (hop : NoOp e) (hne : NoExisting w)
+    (hs : Static sp w) (hp : Pend w) (ho : Once w.tasks) :
     Static sp (step sp w e) ∧ Pend (step sp w e) := by
   cases e with
+  | pause => cases hop
+  | resume => cases hop
+  | stop t => cases hop
   | start =>
     simp only [step]
     split
@@ -541,6 +693,18 @@ theorem live_step (sp : Spec) (w : World) (e : Event) (hs : Static sp w) (hp : P
   | deliver it =>
     cases it with
     | runAction t => exact ⟨hs, hp⟩
+    | postStartExisting t =>
+      simp only [step]; split
+      · exact ⟨hs, hp⟩
+      · rename_i hc
+        have hm : Item.postStartExisting t ∈ w.pending := List.contains_iff_mem.mp (by simpa using hc)
+        have := hne _ hm; cases this
+    | rpcStartExisting t =>
+      simp only [step]; split
+      · exact ⟨hs, hp⟩
+      · rename_i hc
+        have hm : Item.rpcStartExisting t ∈ w.pending := List.contains_iff_mem.mp (by simpa using hc)
+        have := hne _ hm; cases this
     | postStartTask t =>
       simp only [step]; split
       · exact ⟨hs, hp⟩
@@ -635,13 +799,21 @@ theorem live_step (sp : Spec) (w : World) (e : Event) (hs : Static sp w) (hp : P
           · rename_i hcomp
             exact live_complete sp w t ok _ r hs hp ho (by cases ok <;> simp) hr (by simpa using hcomp)
 
-/-- the whole invariant, for every event history -/
-theorem live_reachable (sp : Spec) (evs : List Event) :
+/-- the whole invariant, for every event history without operator commands -/
+theorem live_reachable (sp : Spec) (evs : List Event) (hops : ∀ e ∈ evs, NoOp e) :
     Static sp (run sp evs) ∧ Pend (run sp evs) ∧ Once (run sp evs).tasks := by
-  refine run_induction sp (fun w => Static sp w ∧ Pend w ∧ Once w.tasks) ?_ ?_ evs
-  · exact ⟨(live_init sp).1, (live_init sp).2, by simp [Once, init]⟩
-  · intro w e ⟨h1, h2, h3⟩
-    exact ⟨(live_step sp w e h1 h2 h3).1, (live_step sp w e h1 h2 h3).2, shape_once sp _ _ (step_shape sp w e) h3⟩
+  unfold run
+  suffices ∀ w, (Static sp w ∧ Pend w ∧ Once w.tasks ∧ NoExisting w) →
+      (Static sp (evs.foldl (step sp) w) ∧ Pend (evs.foldl (step sp) w) ∧ Once (evs.foldl (step sp) w).tasks) by
+    exact this init ⟨(live_init sp).1, (live_init sp).2, by simp [Once, init], by intro x hx; simp [init] at hx⟩
+  induction evs with
+  | nil => intro w h; exact ⟨h.1, h.2.1, h.2.2.1⟩
+  | cons e es ih =>
+    intro w ⟨h1, h2, h3, h4⟩
+    have hop := hops e (by simp)
+    exact ih (fun e' he' => hops e' (List.mem_cons.mpr (Or.inr he'))) _
+      ⟨(live_step sp w e hop h4 h1 h2 h3).1, (live_step sp w e hop h4 h1 h2 h3).2,
+       shape_once sp _ _ (step_shape sp w e) h3, noExisting_step sp w e hop h4⟩
 
 /-! ### quiescence -/
 
@@ -715,7 +887,18 @@ theorem completeTask_not_idle (sp : Spec) (w : World) (t : String) (s : St) (h :
     split
     · exact h
     · intro hc; cases hc
-  · rw [dispatch_wf]; exact h
+  · split
+    · exact h
+    · rw [dispatch_wf]; exact h
+
+theorem wfApply_pause_not_idle (s : St) (h : s ≠ .IDLE) : (Lifecycle.wfApply s .pause).1 ≠ .IDLE := by
+  cases s <;> first | exact absurd rfl h | decide
+
+theorem wfApply_resume_not_idle (s : St) (h : s ≠ .IDLE) : (Lifecycle.wfApply s .resume).1 ≠ .IDLE := by
+  cases s <;> first | exact absurd rfl h | decide
+
+theorem wfApply_stop_not_idle (s t : St) (h : s ≠ .IDLE) : (Lifecycle.wfApply s (.stop t)).1 ≠ .IDLE := by
+  cases s <;> cases t <;> first | exact absurd rfl h | decide
 
 theorem step_not_idle (sp : Spec) (w : World) (e : Event) (h : w.wf ≠ .IDLE) : (step sp w e).wf ≠ .IDLE := by
   cases e with
@@ -727,10 +910,30 @@ theorem step_not_idle (sp : Spec) (w : World) (e : Event) (h : w.wf ≠ .IDLE) :
       simp only [Bool.or_eq_true, bne_iff_ne, ne_eq, Bool.not_eq_true', not_or, Decidable.not_not] at hg
       exact absurd hg.1 h
   | execute t ok => simp only [step]; split <;> exact h
+  | pause => exact wfApply_pause_not_idle _ h
+  | stop t => exact wfApply_stop_not_idle _ t h
+  | resume =>
+    simp only [step]
+    split
+    · exact h
+    · split
+      · exact h
+      · split
+        · exact checkAndComplete_not_idle _ (wfApply_resume_not_idle _ h)
+        · rw [dispatch_wf]; exact wfApply_resume_not_idle _ h
   | deliver it =>
     cases it with
     | runAction t => exact h
     | postStartTask t => simp only [step]; split <;> exact h
+    | postStartExisting t => simp only [step]; split <;> exact h
+    | rpcStartExisting t =>
+      simp only [step]; split
+      · exact h
+      · split
+        · exact h
+        · split
+          · exact h
+          · split <;> exact h
     | postRunAction t => simp only [step]; split <;> exact h
     | postCheck =>
       simp only [step]; split
